@@ -36,7 +36,8 @@ RULE = ("pppoe: (a) systematic: each of 12 prefixes reaching a distinct phase/FS
 TRUSTED = ["PPP option contents are abstracted to ack/nak/reject quality; addresses to {none,pool,static,fallback}",
            "timers are events: FSM.Timeout()/handleCHAPTimeout() are called by the harness, real timers never fire",
            "one handler at a time (the per-packet goroutines of the real receive loops are sequentialised)"]
-ASSUMPTIONS = ["ipoe: unified session mode, DHCP server mode, IA_NA pool never exhausted (16 addresses)",
+ASSUMPTIONS = ["ipoe: unified session mode, DHCP server mode; when ResolveV6 fails the model stops predicting and the extracted monitor judges the implementation's trace",
+               "IA_PD is compared as a token derived next to each IPv6 address dataplane call; PD pool accounting is not modelled",
                "AAA request ids are unique (uuid) — the model numbers them 1,2,3...",
                "LAC hand-off (lacTrigger) and session restore/HA paths are not exercised"]
 
